@@ -23,14 +23,15 @@ CLASSES = ["Cuboid", "Cylinder", "CylinderSegment", "Sphere", "Tetrahedron", "Tr
            "Sensor"]
 PATHS = ["static", "transl3", "rot4", "spin4"]
 FRAMES = ["default", 1, 2, [0, 2], [0, 9]]
-UNITS = ["m", "mm", "km"]
-NEST = ["bare", "coll", "nested"]
+UNITS = ["m", "mm", "km", "Mm", "µm", "auto:Mm", "auto:µm", "auto:m"]
+NEST = ["bare", "coll", "nested", "deep3", "deep4"]
+UNIT_SCALE = {"m": 1.0, "mm": 1e-3, "km": 1e3, "Mm": 1e6, "µm": 1e-6, "Gm": 1e9, "nm": 1e-9}   # size of the unit in metres (SI prefixes)
 TV = [(-0.5, -0.4, -0.3), (0.9, -0.3, -0.4), (-0.2, 0.8, -0.3), (0.0, 0.0, 0.9)]
 TF = [(0, 2, 1), (0, 1, 3), (0, 3, 2), (1, 2, 3)]
 PAR = {"Cuboid": {"dimension": (1.0, 1.2, 0.8)}, "Cylinder": {"dimension": (1.0, 1.2)}, "CylinderSegment": {"dimension": (0.3, 0.9, 1.1, -30, 200)},
        "Sphere": {"diameter": 1.1}, "Tetrahedron": {"vertices": [TV[0], TV[2], TV[1], TV[3]]}, "TriangularMesh": {"vertices": TV, "faces": TF},
        "Triangle": {"vertices": TV[:3]}, "Circle": {"diameter": 1.3}, "Polyline": {"vertices": [(0, 0, 0), (1, 1, 0.5), (1, 2, -0.4)]}}
-UNIT_FACTOR = {"m": 1.0, "mm": 1e3, "km": 1e-3, "cm": 1e2, "µm": 1e6, "um": 1e6, "nm": 1e9}
+UNIT_FACTOR = {"m": 1.0, "mm": 1e3, "km": 1e-3, "cm": 1e2, "dm": 1e1, "µm": 1e6, "um": 1e6, "nm": 1e9, "Mm": 1e-6, "Gm": 1e-9, "Tm": 1e-12, "pm": 1e12}
 
 
 def mk(cls, pathkind, scale=1.0):
@@ -265,7 +266,12 @@ def run_case(c):
     from scipy.spatial.transform import Rotation as R
 
     cls, pk, frames, unit, nest, anim = c["cls"], c["path"], c["frames"], c["unit"], c["nest"], c["anim"]
-    scale = {"m": 1.0, "mm": 1e-3, "km": 1e3}[unit] if c.get("scaled") else 1.0
+    auto = unit.startswith("auto:")
+    if auto:   # the scene has the size of the named unit; show() is asked to choose the unit itself
+        unit_req, unit = "auto", unit.split(":")[1]
+    else:
+        unit_req = unit
+    scale = UNIT_SCALE[unit] if (c.get("scaled") or auto) else 1.0
     obj = mk(cls, pk, scale)
     top = obj
     if nest == "coll":
@@ -277,12 +283,19 @@ def run_case(c):
         top = magpy.Collection(inner, magpy.Sensor(position=np.array((3, 3, 3)) * scale, style_color="#fedcba"))
         top.rotate_from_angax(35, (1, 0, 1), anchor=0)
         inner.move(np.array((0.3, -0.2, 0.1)) * scale)
+    elif nest in ("deep3", "deep4"):   # the object sits 3 / 4 collections below the one that is shown
+        lvl = magpy.Collection(obj, position=np.array((1, 0, 0)) * scale)
+        for k in range(int(nest[-1]) - 1):
+            lvl = magpy.Collection(lvl, magpy.Sensor(position=np.array((3, 3 + k, 3)) * scale, style_color="#fedcb%d" % k),
+                                   position=np.array((0, 0.5 * k, 0)) * scale)
+        top = lvl
+        top.rotate_from_angax(35, (1, 0, 1), anchor=0)
     extra = None
     if anim:
         extra = mk("Cuboid" if cls != "Cuboid" else "Sphere", "static", scale)
         extra.position = np.array([(3 + 0.1 * i, 3, 3) for i in range(7)]) * scale   # longer path: frames beyond obj's path
         extra.style.color = "#abcdef"
-    kw = {"backend": "plotly", "return_fig": True, "units_length": unit}
+    kw = {"backend": "plotly", "return_fig": True, "units_length": unit_req}
     style_dict = {"path": {"frames": frames}} if frames != "default" else {}
     caller_style = json.dumps(style_dict, sort_keys=True)
     for flag in ("style_magnetization_show", "style_arrow_show", "style_orientation_show"):
@@ -322,7 +335,13 @@ def run_case(c):
     if json.dumps(style_dict, sort_keys=True) != caller_style:
         problems.append("show-changed-caller-style-dict")
     u = unit_from_title(fig.layout.scene.xaxis.title.text)
-    if u != unit or unit_from_title(fig.layout.scene.yaxis.title.text) != unit or unit_from_title(fig.layout.scene.zaxis.title.text) != unit:
+    if auto:
+        # any unit may be chosen, but all axes announce the same one, it is an SI length unit, and the numbers are in it
+        if u not in UNIT_FACTOR or unit_from_title(fig.layout.scene.yaxis.title.text) != u or unit_from_title(fig.layout.scene.zaxis.title.text) != u:
+            problems.append(f"axis-unit-{u}-not-a-length-unit-or-axes-disagree")
+            return problems
+        unit = u
+    elif u != unit or unit_from_title(fig.layout.scene.yaxis.title.text) != unit or unit_from_title(fig.layout.scene.zaxis.title.text) != unit:
         problems.append(f"axis-unit-{u}-instead-of-{unit}")
         return problems
     factor = UNIT_FACTOR[unit]
@@ -565,8 +584,77 @@ def run_extra(c):
     return problems
 
 
+SUB_MODES = ["arrow", "color", "auto", "arrow+color"]
+SUB_NEST = ["bare", "coll", "nested", "mixed"]
+
+
+def _scene_sig(traces):
+    """geometric content of a list of plotly traces (legend / naming left out)"""
+    out = []
+    for t in traces:
+        d = t.to_plotly_json()
+        ent = [d.get("type"), d.get("mode")]
+        for k in ("x", "y", "z", "i", "j", "k"):
+            v = d.get(k)
+            if v is not None:
+                a = np.asarray(v, float)
+                ent.append((k, a.shape, np.round(a, 9).tobytes()))
+        out.append(tuple(ent))
+    return sorted(out, key=repr)
+
+
+def run_subplots(c):
+    """the same objects in the same state shown in several 3D subplots of one call: every subplot must contain exactly what a
+    show() of the objects alone contains (a decoration resolved for the first subplot must not be lost or changed in the next)"""
+    import magpylib as magpy
+
+    mode, nest, ncol, cls = c["mode"], c["nest"], c["ncol"], c["cls"]
+
+    def build():
+        o = mk(cls, c["path"])
+        if mode != "default":
+            o.style.magnetization.mode = mode
+            o.style.magnetization.show = True
+        o2 = mk("Cylinder" if cls != "Cylinder" else "Cuboid", "static")
+        o2.position = (3, 3, 3)
+        if nest == "bare":
+            return [o]
+        if nest == "coll":
+            return [magpy.Collection(o, o2)]
+        if nest == "nested":
+            return [magpy.Collection(magpy.Collection(o), o2)]
+        return [magpy.Collection(magpy.Collection(o)), o2]
+
+    objs = build()
+    before = snapshot_all(objs)
+    try:
+        with common.time_limit(120):
+            ref = magpy.show(*build(), backend="plotly", return_fig=True)
+            fig = magpy.show(*[{"objects": objs, "col": k + 1} for k in range(ncol)], backend="plotly", return_fig=True)
+    except Exception as e:
+        return [f"show-raised-{type(e).__name__}: {e}"[:160]]
+    problems = []
+    if snapshot_all(objs) != before:
+        problems.append("show-changed-objects-or-defaults")
+    want = _scene_sig(ref.data)
+    by_scene = {}
+    for t in fig.data:
+        by_scene.setdefault(t.scene or "scene", []).append(t)
+    if len(by_scene) != ncol:
+        return problems + [f"subplots-{len(by_scene)}-scenes-instead-of-{ncol}"]
+    for k, name in enumerate(sorted(by_scene, key=lambda x: (len(x), x))):
+        got = _scene_sig(by_scene[name])
+        if got != want:
+            kinds = lambda sig: sorted({(e[0], e[1]) for e in sig})
+            problems.append(f"subplot-{k + 1}-differs-from-single-show: {len(got)} traces {kinds(got)} vs {len(want)} traces {kinds(want)}")
+            break
+    return problems
+
+
 def work(c):
     try:
+        if c.get("subplots"):
+            return run_subplots(c)
         if c.get("extra"):
             return run_extra(c)
         if c.get("backend") == "matplotlib":
@@ -589,9 +677,11 @@ def enumerate_cases(tier):
                     continue
                 if pk == "spin4" and cls in ("Sphere", "Dipole"):
                     continue   # poses of a body that is symmetric under the turn cannot be told apart in the drawing
-                for unit in (UNITS if tier == "thorough" else ["m", "mm"]):
+                for unit in (UNITS if tier == "thorough" else ["m", "mm", "Mm", "auto:Mm", "auto:µm"]):
                     for nest in NEST:
-                        if tier == "quick" and nest == "nested" and (unit != "m" or frames not in ("default", 1)):
+                        if tier == "quick" and nest in ("nested", "deep3", "deep4") and (unit != "m" or frames not in ("default", 1)):
+                            continue
+                        if tier == "quick" and unit in ("Mm", "auto:Mm", "auto:µm") and (nest != "bare" or frames not in ("default", 1)):
                             continue
                         cases.append({"cls": cls, "path": pk, "frames": frames, "unit": unit, "nest": nest, "anim": False,
                                       "scaled": unit != "m"})
@@ -623,6 +713,14 @@ def enumerate_cases(tier):
                 for unit in (UNITS if tier == "thorough" else ["m", "mm"]):
                     cases.append({"backend": "matplotlib", "cls": cls, "path": pk, "frames": frames, "unit": unit, "nest": "bare", "anim": False,
                                   "scaled": unit != "m"})
+    for cls in ("Cuboid", "Cylinder", "Sphere", "CylinderSegment", "Tetrahedron", "TriangularMesh", "Triangle", "Circle", "Sensor"):
+        for mode in (SUB_MODES + ["default"] if cls in ("Cuboid", "Cylinder", "Sphere", "CylinderSegment", "Tetrahedron", "TriangularMesh") else ["default"]):
+            for nest in SUB_NEST:
+                for ncol in (2, 3):
+                    for pk in ("static", "rot4"):
+                        if tier == "quick" and ((ncol == 3 and nest not in ("coll", "mixed")) or (pk == "rot4" and mode not in ("arrow", "default"))):
+                            continue
+                        cases.append({"subplots": True, "cls": cls, "mode": mode, "nest": nest, "ncol": ncol, "path": pk, "frames": "default", "unit": "m", "anim": False})
     for cls in CLASSES:
         for fault in SHOW_FAULTS:
             for pos in ((0, 1, 2) if fault.startswith("trace") else (0,)):
@@ -642,6 +740,9 @@ def run(tier, seed):
                 harness.append(f"{c}: {p}")
                 continue
             kind = p.split(":")[0]
+            if c.get("subplots"):
+                viols.append({"key": f"C19|subplots|{c['cls']}|mode={c['mode']}|{c['nest']}|{kind.split(' ')[0]}", "what": f"{c}: {p}", "case": c, "observed": p})
+                continue
             if c.get("extra"):
                 viols.append({"key": f"C19|extra-model|{c['form']}|{c['path']}|scale={c['tscale']}|{kind.split(' ')[0]}", "what": f"{c}: {p}", "case": c, "observed": p})
                 continue
